@@ -138,6 +138,8 @@ def goal_shape(desc, lanelet_ids=None):
         return Polygon(np.array([[x / 2.0, y / 2.0] for x, y in desc["v"]]))
     if k == "group":
         return ShapeGroup([_rect(r) for r in desc["rs"]])
+    if k == "mgroup":                          # ShapeGroup mixing rectangles, discs, polygons and nested groups
+        return ShapeGroup([goal_shape(m) for m in desc["ms"]])
     if k == "lanelets":
         lls = [lanelet(lid, r[0] / 2.0, r[1] / 2.0, (r[2] - r[0]) / 2.0, (r[3] - r[1]) / 2.0)
                for lid, r in zip(lanelet_ids, desc["rs"])]
@@ -317,3 +319,10 @@ def state_by_class(name, time_step, position=None, orientation=None, velocity=No
            "mb": S.MBState, "pm": S.PMState, "extpm": S.ExtendedPMState, "lateral": S.LateralState,
            "custom": S.CustomState}[name]
     return cls(**kw)
+
+
+def area(aid, borders=None):
+    """Area; borders: list of (border id, vertices, adjacent lanelet ids or None) or None (an area without borders)."""
+    from commonroad.scenario.area import Area, AreaBorder, AreaType
+    bs = None if borders is None else [AreaBorder(bid, np.array(v, dtype=float), adj) for bid, v, adj in borders]
+    return Area(aid, bs, {AreaType.PARKING} if hasattr(AreaType, "PARKING") else None)
